@@ -146,6 +146,25 @@ fn cmd_jobs(args: &[String]) -> i32 {
     0
 }
 
+/// `vh graph <cases.ndjson> <out.ndjson>`
+fn cmd_graph(args: &[String]) -> i32 {
+    let slot: u32 = arg_val(args, "--slot").and_then(|s| s.parse().ok()).unwrap_or(0);
+    jobs::install_panic_hook();
+    let cases: Vec<Value> = std::io::BufReader::new(std::fs::File::open(&args[0]).expect("cases"))
+        .lines()
+        .map(|l| l.unwrap())
+        .filter(|l| !l.trim().is_empty())
+        .map(|l| serde_json::from_str(&l).expect("case json"))
+        .collect();
+    let mut out = BufWriter::new(std::fs::File::create(&args[1]).expect("out"));
+    for (i, c) in cases.iter().enumerate() {
+        let r = jobs::graph_case(c, slot, i as u32);
+        writeln!(out, "{r}").unwrap();
+    }
+    out.flush().unwrap();
+    0
+}
+
 fn main() {
     let args: Vec<String> = std::env::args().skip(1).collect();
     if args.is_empty() {
@@ -154,6 +173,7 @@ fn main() {
     }
     let code = match args[0].as_str() {
         "jobs" => cmd_jobs(&args[1..]),
+        "graph" => cmd_graph(&args[1..]),
         other => {
             eprintln!("unknown command {other}");
             2
